@@ -95,7 +95,7 @@ impl Prop for C17 {
             let reply_err = if g.chance(1, 5) { Some(*g.pick(&[1213u16, 1205, 1243, 1064, 1105, 1317, 1062])) } else { None };
             ops.push(Op::Exec { stmt: s, params, rebind: true, take: None, reply_err });
         }
-        Case { stmts, ops, tail_unbound: None }
+        Case { stmts, ops, tail_unbound: None, tail_mode: 0 }
     }
     fn fixed(&self, tier: Tier) -> Vec<Case> {
         // multi-packet chunk(s)
@@ -128,7 +128,7 @@ impl Prop for C17 {
                         reply_err: None,
                     },
                 ],
-                tail_unbound: None,
+                tail_unbound: None, tail_mode: 0,
             });
         }
         // "concatenated in arrival order", however much arrives: one parameter accumulating more than
@@ -141,7 +141,7 @@ impl Prop for C17 {
             let mut ops: Vec<Op> = (0..nchunks).map(|i| Op::Long { stmt: 0, param: 0, data: crate::gen::pattern(40 + i as u32, (14 << 20) + i) }).collect();
             ops.push(Op::Exec { stmt: 0, params: vec![Param { coltype: T_BLOB, unsigned: false, value: PVal::LongData }], rebind: true, take: None, reply_err: None });
             ops.push(Op::Exec { stmt: 0, params: vec![Param { coltype: T_BLOB, unsigned: false, value: PVal::Bytes(b"after".to_vec()) }], rebind: true, take: None, reply_err: None });
-            v.push(Case { stmts: vec![(3, 1)], ops, tail_unbound: None });
+            v.push(Case { stmts: vec![(3, 1)], ops, tail_unbound: None, tail_mode: 0 });
         }
         // "delivered to exactly one execution", for every later execution: one statement executed
         // more often than 8-, 16-bit counters can tell apart (a streamed value once, then inline values)
@@ -163,7 +163,7 @@ impl Prop for C17 {
                 reply_err: None,
             });
         }
-        v.push(Case { stmts: vec![(3, 2)], ops, tail_unbound: None });
+        v.push(Case { stmts: vec![(3, 2)], ops, tail_unbound: None, tail_mode: 0 });
         // one parameter streamed in more chunks than a 16-bit counter holds (1-byte and empty chunks)
         let nch = match tier {
             Tier::Quick => 65_536 + 40,
@@ -172,7 +172,7 @@ impl Prop for C17 {
         let mut ops: Vec<Op> = (0..nch).map(|k| Op::Long { stmt: 0, param: 1, data: if k % 97 == 5 { vec![] } else { vec![b'a' + (k % 26) as u8] } }).collect();
         ops.push(Op::Exec { stmt: 0, params: vec![Param { coltype: T_LONG, unsigned: false, value: PVal::Int(9) }, Param { coltype: T_BLOB, unsigned: false, value: PVal::LongData }], rebind: true, take: None, reply_err: None });
         ops.push(Op::Exec { stmt: 0, params: vec![Param { coltype: T_LONG, unsigned: false, value: PVal::Int(10) }, Param { coltype: T_BLOB, unsigned: false, value: PVal::Bytes(b"inline".to_vec()) }], rebind: true, take: None, reply_err: None });
-        v.push(Case { stmts: vec![(4, 2)], ops, tail_unbound: None });
+        v.push(Case { stmts: vec![(4, 2)], ops, tail_unbound: None, tail_mode: 0 });
         v
     }
     fn exec(&self, case: &Case) -> Exec {
